@@ -256,7 +256,7 @@ def strategy(flags=None):
 
 
 def flags():
-    return PG.Flags()
+    return PG.Flags(global_decl=True, nonlocal_decl=True)
 
 
 def plan(tier, seed, scale):
